@@ -66,7 +66,9 @@ def rule_xport(m):
         else:
             e = ('var', loops[0]['loopvar'])
             fi, se = _first_second(e)
-            a = [tt.t(x) for x in adds[0]['args']]
+            from .rules_pair import Ctx as _RCtx
+            _rc = _RCtx(m, f)
+            a = [_rc.unconst(tt.t(x)) for x in adds[0]['args']]
             res_var = tt.t(adds[0]['obj'])
             if a[:2] != [se, fi]:
                 why = 'the endpoints are not inserted swapped (second, first)'
@@ -430,9 +432,19 @@ def rule_xport(m):
 
 
 def _get_index(f, argnode):
-    """I of std::get<I>(tuple) for an argument node"""
+    """I of std::get<I>(tuple) for an argument node (seen through a single-definition local: `const auto v1 = std::get<0>(e)`)"""
     nid = f.strip(argnode)
     n = f.nodes[nid]
+    hops = 0
+    while n['k'] == 'DeclRefExpr' and hops < 3 and f.unit.decl(n['d'])['dk'] == 'Var':
+        defs = var_defs(f, n['d'])
+        if len(defs) != 1 or defs[0][1] < 0:
+            break
+        nid = f.strip(defs[0][1])
+        while f.nodes[nid]['k'] in ('CXXConstructExpr',) and len(f.nodes[nid].get('args', [])) == 1:
+            nid = f.strip(f.nodes[nid]['args'][0])
+        n = f.nodes[nid]
+        hops += 1
     if n['k'] == 'CallExpr' and 'callee' in n:
         g = f.unit.decl(n['callee'])
         if g['tname'] == 'std::get':
@@ -950,15 +962,22 @@ def rule_idx(m):
                     v = st
                 if st[0] == 'deref' and st[1][0] == 'field' and st[1][1].endswith('::neighbour'):
                     nb = st
-            ends = [st for st in subterms(c) if st[0] == 'mcall' and st[1].endswith('::hasReachedEnd')]
+            ends = [(st, True) for st in subterms(c) if st[0] == 'mcall' and st[1].endswith('::hasReachedEnd')]
+            # after the advance loop the position is at the end exactly when it equals the end of the current list
+            for st in subterms(c):
+                if st[0] == 'bin' and st[1] in ('==', '!=') and nb is not None and st[2] == nb[1] and st[3][0] == 'mcall' and \
+                        st[3][1] == 'std::list::end' and st[3][2][0] == 'mcall' and st[3][2][1].endswith(('::getOutNeighbours', '::getNeighbours')) and \
+                        v is not None and st[3][2][3] == (v,):
+                    ends.append((st, st[1] == '=='))
             if v is None or nb is None or not ends:
                 why = 'the skip condition does not compare the vertex with *neighbour under !hasReachedEnd()'
             else:
                 # skipping continues (cond true) exactly for vertex > neighbour when not at the end
                 vals = []
+                endt, endpos = ends[0]
                 for (va, vb) in ORDERINGS:
-                    vals.append(eval_order(c, {v: va, nb: vb, ends[0]: False}))
-                at_end = [eval_order(c, {v: va, nb: vb, ends[0]: True}) for (va, vb) in ORDERINGS]
+                    vals.append(eval_order(c, {v: va, nb: vb, endt: (False if endpos else True)}))
+                at_end = [eval_order(c, {v: va, nb: vb, endt: (True if endpos else False)}) for (va, vb) in ORDERINGS]
                 if vals != [False, False, True]:
                     why = 'a half-edge is skipped/yielded for the wrong orientation (skip for v<n, v=n, v>n: %s)' % vals
                 elif any(x is not False for x in at_end):
